@@ -71,6 +71,7 @@ func NewShared(prog *ssa.Program) *Shared {
 	registerGob(sh.intr)
 	registerFiles(sh.intr)
 	registerAlias(sh.intr)
+	registerJSONBox(sh.intr)
 	if p := prog.ImportedPackage("errors"); p != nil {
 		sh.errorsNew = p.Func("New")
 	}
